@@ -178,6 +178,14 @@ theorem C14_start_exclusive (env : Env) (d : Decl) :
 theorem C14_discrete (t : PType) : isDiscrete t = true ↔ t ≠ .real := by
   cases t <;> simp [isDiscrete]
 
+/-- **Which member's parameters**: parameter-dependent `min`, `max`, `nominal` are substituted
+    with member 0's parameter values for the whole ensemble; `start` values with the values of
+    the member whose history / seed is built. -/
+theorem C14_member_parameters (envs : Nat → Env) (member : Nat) :
+    envOf envs .bounds member = envs 0 ∧ envOf envs .nominal member = envs 0 ∧
+    envOf envs .history member = envs member ∧ envOf envs .seed member = envs member :=
+  ⟨rfl, rfl, rfl, rfl⟩
+
 /-! ## parameters and outputs -/
 
 /-- **Parameter override chain** model < file < code: the value comes from code if code gives
